@@ -153,3 +153,12 @@ META.update({
 })
 META["C14"]["engine"] = "E-single + E-os"
 META["C11"]["engine"] = "E-single + E-sched"
+
+META["C22"] = E("fault enumeration: a panic injected at every user-code step, recovery judged by the reference interpreter",
+    "Fault enumeration: for each small generated (program, history) every user-code step of the whole history is a crash point (enumerated "
+    "exhaustively for most cases, sampled above 120/400 points): the injected panic must reach the caller, no result of the interrupted "
+    "computation may be returned, and after the fault is disarmed the rest of the history, a repeat of the request and a full sweep in the "
+    "next revision must agree with the reference; a second run arms the fault while two OS threads compute overlapping functions so that "
+    "one waits on the other (propagated panic or correct value, never a hang). Known findings F2 and F13 are reported as KNOWN-FINDING by "
+    "(injection site, failure message) signature; F1 was repaired.",
+    SINGLE_NOTE, "E-fault (E-single replay per injection point) + E-os")
